@@ -6,7 +6,8 @@ STATE_POOL = ["S", "E", "I", "R", "N", "Q", "A", "B", "C", "D", "U", "V", "W", "
 CSAFE_STATES = ["A", "B", "C", "D", "U", "V", "W", "X", "Y", "Z"]
 PARAM_POOL = ["beta", "gamma", "mu", "k1", "k2", "alpha", "zeta", "w", "rho", "eps", "kappa", "nu", "k", "n", "a", "b", "c", "p", "d"]
 CSAFE_PARAMS = ["b1", "g1", "mu", "k1", "k2", "al", "w", "rho", "eps", "kap", "nu"]
-RATE_FORMS = ["lin", "mass", "sat", "exp", "per", "const", "sum", "dif"]
+RATE_FORMS = ["lin", "mass", "sat", "exp", "per", "const", "sum", "dif", "tper"]
+TIME_FORMS = ("per", "tper")
 
 
 def gen_rate(rng, states, params, derived, forms=RATE_FORMS):
@@ -25,6 +26,8 @@ def gen_rate(rng, states, params, derived, forms=RATE_FORMS):
         return "%s*exp(-%s*%s)" % (p, p2, s)
     if form == "per":
         return "%s*%s*(1+0.5*cos(2*t+%s))" % (p, s, p2)
+    if form == "tper":     # a rate that depends on time but on no state (seasonal import)
+        return "%s*(1+0.5*cos(t+%s))" % (p, p2)
     if form == "sum":      # a rate with a top-level sum: force of infection plus import, two routes of loss, ...
         return "%s*%s + %s*%s" % (p, s, p2, s2)
     if form == "dif":
@@ -50,7 +53,7 @@ def gen_assembly(rng, csafe=False, time_dep=True, max_states=5, min_states=1, al
     # variables declared as ODEVariable objects, some flagged real=False (documented; the model treats every variable as real)
     state_real = [rng.random() < 0.6 for _ in states]
     param_real = [rng.random() < 0.6 for _ in params]
-    forms = RATE_FORMS if time_dep else [f for f in RATE_FORMS if f != "per"]
+    forms = RATE_FORMS if time_dep else [f for f in RATE_FORMS if f not in TIME_FORMS]
     dps = []
     if derived and rng.random() < 0.4:
         p, s = rng.choice(params), rng.choice(states)
@@ -68,6 +71,8 @@ def gen_assembly(rng, csafe=False, time_dep=True, max_states=5, min_states=1, al
                 mag = rng.choice(params)
             elif sym_mag and rng.random() < 0.08:     # a magnitude that is itself an expression of a parameter
                 mag = rng.choice(["%s+1", "2*%s", "1-%s", "%s/2"]) % rng.choice(params)
+            elif sym_mag and time_dep and rng.random() < 0.06:     # ... or of time (no state in it)
+                mag = "%s*(1+0.5*cos(t))" % rng.choice(params)
             if tt == "T":
                 o, d = rng.sample(states, 2)
                 trs.append(["T", o, d, mag])
@@ -77,12 +82,17 @@ def gen_assembly(rng, csafe=False, time_dep=True, max_states=5, min_states=1, al
                 trs.append(["D", rng.choice(states), None, mag])
         events.append({"rate": rate, "trans": trs})
     odes = []
+    forcing_only = False
     if ode_terms and (rng.random() < 0.4 or not events):
+        forcing_only = time_dep and rng.random() < 0.25      # explicit terms that are a pure forcing: time and parameters, no state
         for _ in range(rng.randint(1, 2)):
-            odes.append([rng.choice(states),
-                         gen_rate(rng, states, params, dps, forms) + " - 0.1*" + rng.choice(states)])
+            if forcing_only:
+                odes.append([rng.choice(states), "%s*sin(%s*t)" % (rng.choice(params), rng.choice(params))])
+            else:
+                odes.append([rng.choice(states),
+                             gen_rate(rng, states, params, dps, forms) + " - 0.1*" + rng.choice(states)])
     return {"states": states, "state_decl": decl, "params": params, "param_decl": pdecl, "state_real": state_real, "param_real": param_real,
-            "derived": dps, "events": events, "odes": odes, "limits": None}
+            "derived": dps, "events": events, "odes": odes, "limits": None, "forcing_only": bool(forcing_only and odes)}
 
 
 def classes(spec):
@@ -110,8 +120,12 @@ def classes(spec):
     if any((" + " in e["rate"] or " - " in e["rate"]) for e in spec["events"]):
         c.append("rate-with-top-level-sum")
     txt = " ".join([e["rate"] for e in spec["events"]] + [o[1] for o in spec["odes"]] + [d[1] for d in spec["derived"]])
-    if "cos(" in txt:
+    if "cos(" in txt or "sin(" in txt or any("cos(" in m for m in mags):
         c.append("time-dependent")
+    if any("cos(t)" in m for m in mags):
+        c.append("time-dependent-magnitude")
+    if spec.get("forcing_only") and spec["odes"]:
+        c.append("pure-forcing-ode-terms")
     if "exp(" in txt:
         c.append("exponential-rate")
     if "/(" in txt:
